@@ -100,7 +100,7 @@ pub fn check(sc: &Scenario, out: &RunOutput) -> OracleResult {
                 let cum_ref = match fin_accepted {
                     Some(f) => {
                         let mut c = f;
-                        while delivered_any.contains(&c.wrapping_add(1)) && seq_diff(c, f) < 4096 {
+                        while (delivered_any.contains(&c.wrapping_add(1)) || fin_seqs.contains(&c.wrapping_add(1))) && seq_diff(c, f) < 4096 {
                             c = c.wrapping_add(1);
                         }
                         c
